@@ -69,7 +69,7 @@ fn report(run: &Run, p: Prof, s: &str) {
 
 pub fn run(run: &Run) {
     run.set_rule(
-        "Generator: (a) every Unicode scalar value c in the 7 contexts c, xc, Xc, cx, cX, U+01C5 c, c U+10400 (uncased / uppercase / \
+        "Generator: (a) every Unicode scalar value c in the 9 contexts c, xc, Xc, cx, cX, U+01C5 c, c U+10400, behind 17 two-byte letters, behind 93 mixed-width characters + X (uncased / uppercase / \
          titlecase / 4-byte neighbours before and after), (b) proptest strings from a case-heavy pool (upper, lower, titlecase, \
          Other_Uppercase, expanding mappings, Cherokee, Deseret, Adlam) mixed with general characters; through \
          Rules::case_mapping_rule of UsernameCaseMapped and Nickname. Oracle: concatenation of char::to_lowercase per character. \
@@ -79,15 +79,20 @@ pub fn run(run: &Run) {
     );
     run.assume("char::to_lowercase of the toolchain's std is the untailored full lowercase mapping the README documents (same std as the library: no version skew)");
     let profs = [Prof::UserMapped, Prof::Nick];
-    run.par("all_scalars_in_7_contexts", true, |tid, n, l| {
+    let pad_a = gens::pad(1, 5); // 17 two-byte lowercase letters
+    let pad_b = format!("{}X", gens::pad(5, 7)); // 93 mixed-width characters, then an uppercase letter
+    let (pad_a, pad_b) = (&pad_a, &pad_b);
+    run.par("all_scalars_in_9_contexts", true, |tid, n, l| {
         let mut cp = tid as u32;
         while cp < 0x110000 {
             if let Some(c) = char::from_u32(cp) {
                 if cp % 8192 == 0 && run.stopped() {
                     return;
                 }
-                for t in 0..7 {
+                for t in 0..9 {
                     let s = match t {
+                        7 => format!("{}{c}", pad_a),
+                        8 => format!("{}{c}x", pad_b),
                         0 => format!("{c}"),
                         1 => format!("x{c}"),
                         2 => format!("X{c}"),
@@ -108,14 +113,42 @@ pub fn run(run: &Run) {
             cp += n as u32;
         }
     });
+    super::pipe::stress(run, "alignment_and_runs", &super::pipe::PAYLOADS_USER, &|s, l| {
+        for p in profs {
+            if check(p, s, l).is_err() {
+                report(run, p, s);
+                return false;
+            }
+        }
+        true
+    });
+    // every ASCII character and every character of the cased pool at every alignment 0..=72 behind lower-case ASCII
+    run.par("ascii_and_cased_at_every_alignment", true, |tid, n, l| {
+        let mut chars: Vec<char> = (0u8..128).map(|b| b as char).collect();
+        chars.extend(pools().cased.iter().copied());
+        for (i, c) in chars.iter().enumerate() {
+            if i % n != tid {
+                continue;
+            }
+            for k in 0..=72usize {
+                for tail in ["", "zzzzzzzzzzzzzzzzzzzzzzzzzzzzzzzzzzzz"] {
+                    let s = format!("{}{c}{tail}", "a".repeat(k));
+                    l.cases += 1;
+                    for p in profs {
+                        if check(p, &s, l).is_err() {
+                            report(run, p, &s);
+                            return;
+                        }
+                    }
+                }
+            }
+        }
+    });
     let mk = || {
         let ch = prop_oneof![45 => gens::pick(&pools().cased), 25 => gens::pick(&pools().simple), 20 => gens::pick(&pools().general), 10 => gens::gchar()];
-        (prop_oneof![9 => vec(ch.clone(), 0..=12), 1 => vec(ch, 0..=120)], 0..2usize)
+        (gens::padded(prop_oneof![9 => vec(ch.clone(), 0..=12), 1 => vec(ch, 0..=120)].prop_map(gens::s_of).boxed()), 0..2usize)
     };
-    run.prop("random", run.pick(2_000_000, 60_000_000), mk, |(cs, pi), l| {
-        let s: String = cs.iter().collect();
-        check(profs[*pi], &s, l)
-    });
+    run.prop("random", run.pick(2_000_000, 60_000_000), mk, |(s, pi), l| check(profs[*pi], s, l));
 }
 
 pub fn replay(_run: &Run, case: &Value) -> Check {
